@@ -38,3 +38,22 @@ pub mod prelude {
     pub use crate::visits::breadth_first;
     pub use crate::visits::depth_first;
 }
+
+/// Call-outs used by external verification harnesses; compiled only with
+/// the `verif_hooks` feature.
+#[cfg(feature = "verif_hooks")]
+pub mod verif_hooks {
+    use std::sync::RwLock;
+
+    /// Hook invoked by a parallel-compression worker right before it sends
+    /// its finished job (the argument is the job id).
+    pub type JobHook = Box<dyn Fn(usize) + Send + Sync>;
+
+    pub static BEFORE_JOB_SEND: RwLock<Option<JobHook>> = RwLock::new(None);
+
+    pub fn before_job_send(job_id: usize) {
+        if let Some(hook) = &*BEFORE_JOB_SEND.read().unwrap() {
+            hook(job_id)
+        }
+    }
+}
